@@ -5,6 +5,10 @@ props = [json.loads(l)['id'] for l in open('/verif/properties.jsonl')]
 TRUST = ("Trusted: go/packages+go/ssa fidelity and our SSA->SMT translation (subset stated in DESIGN 2.1/2.2), 64-bit int, "
          "soundness of z3 4.8.12 / z3 5.1.0 / cvc5 1.0.3, stdlib models of DESIGN 2.2, every contract marked assumed (listed in the evidence file). ")
 claimed = {
+ 'C15': dict(
+   text="Deductive proof over the whole decode call graph (Point, Cap, Rect, CellID, Cell, CellUnion, Polyline, Loop, Polygon in both formats, compressed point decoding, face runs, derivative coder) against an adversarial input stream (every read returns an unconstrained value and error status = all byte strings of all lengths): no index/slice/nil/make-size/division panic, every make() is within the documented limits (vertices 50M, loops 10M, cells 1M) on the value actually passed, decode loops terminate (counting loops or decreases clauses), and Decode returns a non-nil error whenever a read failed or a validity check raised an error (ghost event flags). Usability of the decoded value by float geometry (initBound, index build) is outside and listed as assumed.",
+   note=TRUST+"Assumed contracts (listed in evidence): NewShapeIndex, ShapeIndex.Add, ExpandForSubregions, Loop.initBound, Polygon.initLoopProperties, Polygon.initEdgesAndIndex, facePiQitoXYZ, CellFromCellID; stdlib I/O models (binary.Read, ReadUvarint, io.ReadFull, ReadByte).",
+   design="3 C15"),
  'C06': dict(
    text="Deductive proof of the Shape-interface slice for *LaxLoop, *LaxPolyline, *LaxPolygon, *PointVector, *Polyline, *Loop: for every well-formed shape value (all vertex arrays, all lengths) chains partition the edge ids, ChainEdge(i,j) is bit-identical to Edge(Chain(i).Start+j), ChainPosition inverts Chain, and none of these calls can index out of range (search loops by invariant and decreases). That index answers equal brute force over float clipping is NOT decided.",
    note=TRUST+"Unverified remainder: ShapeIndex contents vs brute force (edge clipping, containsCenter: floating point); Polygon shape methods.",
